@@ -372,6 +372,27 @@ func evaluate(sc *scen, w *world, sto blobserver.Storage, ref *hs.RefMap, inflig
 	}
 	obs.whole = whole
 	obs.present = ref.Key()
+	// A file whose schema blob and every chunk sit in zips is completely packed: on an
+	// instance that never crashed, OpenWholeRef must then serve it (judged only there: after
+	// a crash in the middle of a pack the w: rows may legitimately be incomplete).
+	if inflight == nil && !fromZips && !w.everCrashed {
+		for i, f := range sc.files {
+			if i >= len(whole) || whole[i] == "served" || !inZip[f.blob.Ref] {
+				continue
+			}
+			packed := true
+			prev := 0
+			for _, b := range append(append([]int{}, f.bounds...), len(f.content)) {
+				if !inZip[blob.RefFromBytes(f.content[prev:b])] {
+					packed = false
+				}
+				prev = b
+			}
+			if packed {
+				return nil, fnd("wholeref-not-served-although-packed", "every chunk and the schema blob of %s are in zips (%d zips), yet OpenWholeRef says it does not exist", f.fileName, nz)
+			}
+		}
+	}
 	return obs, nil
 }
 
